@@ -58,6 +58,32 @@ Section C01.
     unfold A, P. destruct lg; field; repeat split; assumption.
   Qed.
 
+
+  (** The same statement with Coquelicot's derivative operators, exactly as announced in
+      DESIGN.md Appendix A:  P_ph = - dF_ph/dV,  A = V d2F_ph/dV2 - P_ph. *)
+  Lemma Derive_F_ph : forall T x, 0 < T -> Derive (F_ph K w sp T) x = F_zp1 K w sp x + F_th1 K w sp T x.
+  Proof. intros T x HT. apply is_derive_unique. eapply F_ph_first_derivative; eassumption. Qed.
+  Lemma Derive2_F_ph : forall T V, 0 < T -> Derive_n (F_ph K w sp T) 2 V = F_zp2 K w sp V + F_th2 K w sp T V.
+  Proof.
+    intros T V HT. change (Derive_n (F_ph K w sp T) 2 V) with (Derive (Derive (F_ph K w sp T)) V).
+    rewrite (Derive_ext (Derive (F_ph K w sp T)) (fun x => F_zp1 K w sp x + F_th1 K w sp T x))
+      by (intros t; apply Derive_F_ph, HT).
+    apply is_derive_unique. eapply F_ph_second_derivative; eassumption.
+  Qed.
+
+  Theorem value_isothermal_Derive :
+    forall (lg : bool) (ei ej V T p pst : R),
+      0 < T -> V <> 0 -> ei <> 0 -> ej <> 0 ->
+      let P_ph := - Derive (F_ph K w sp T) V in
+      let A := V * Derive_n (F_ph K w sp T) 2 V - P_ph in
+      isothermal (OF:=ROps) K Q1_neg Q2_neg lg w na (freq V) (gam V) (vdr V) ei ej V T p pst
+      = A / ((if lg then 5 else 15) * ei * ej) + (if lg then P_ph / (3 * ei) else p - pst).
+  Proof.
+    intros lg ei ej V T p pst HT HV Hi Hj P_ph A. unfold A, P_ph.
+    rewrite Derive_F_ph, Derive2_F_ph by assumption.
+    apply value_isothermal_is_strain_derivative; assumption.
+  Qed.
+
   Theorem zero_point_is_strain_derivative :
     forall (lg : bool) (ei ej V : R), V <> 0 -> ei <> 0 -> ej <> 0 ->
       let P := - F_zp1 K w sp V in let A := V * F_zp2 K w sp V - P in
@@ -132,6 +158,7 @@ Qed.
 
 Print Assumptions value_isothermal_is_strain_derivative.
 Print Assumptions bose_forms_equal.
+Print Assumptions value_isothermal_Derive.
 Print Assumptions zero_point_is_strain_derivative.
 Print Assumptions thermal_is_strain_derivative.
 Print Assumptions F_ph_derivatives.
